@@ -268,6 +268,7 @@ def main():
         trusted_base=trusted,
         coqc_seconds=round(pr["secs"], 2),
     ))
+    cov["checked_tree"] = repo_fingerprint(pid)
     if chk is not None:
         cov["coqchk"] = dict(ok=chk["ok"], seconds=chk["secs"], axioms=chk["axioms"] or ["<none>"])
     nviol = 0
@@ -287,6 +288,29 @@ def main():
     print("OK %s tier=%s seed=%d cases=%d theorems=%d/%d wall=%.1fs" % (
         pid, tier, seed, cov.get("evaluations", 0), pr["discharged"], len(pr["theorems"]), time.time() - t0))
     sys.exit(0)
+
+
+def repo_fingerprint(pid):
+    """What exactly was checked: /repo HEAD, dirty files, and hashes of the property's anchor files."""
+    out = {}
+    try:
+        rc, head = sh(["git", "-C", "/repo", "rev-parse", "HEAD"])
+        rc2, dirty = sh(["git", "-C", "/repo", "status", "--porcelain"])
+        out["repo_head"] = head.strip()
+        out["repo_dirty_files"] = [l[3:] for l in dirty.splitlines() if l.strip()][:20]
+        files = []
+        for l in open(os.path.join(ROOT, "properties.jsonl")):
+            p = json.loads(l)
+            if p["id"] == pid:
+                files = p["anchors"]["files"]
+        hs = {}
+        for pat in files:
+            for f in sorted(glob.glob(os.path.join("/repo", pat))):
+                hs[os.path.relpath(f, "/repo")] = hashlib.sha1(open(f, "rb").read()).hexdigest()[:12]
+        out["anchor_file_sha1"] = hs
+    except Exception as e:  # informational only
+        out["error"] = str(e)
+    return out
 
 
 def write_replay(pid, seed, tier, rp):
